@@ -270,8 +270,10 @@ class HTTPConnectionPool(ConnectionPool, RequestMethods):
         if self.pool is None:
             raise ClosedPoolError(self, "Pool is closed.")
 
+        slot_popped = False
         try:
             conn = self.pool.get(block=self.block, timeout=timeout)
+            slot_popped = True
 
         except AttributeError:  # self.pool is None
             raise ClosedPoolError(self, "Pool is closed.") from None  # Defensive:
@@ -289,7 +291,16 @@ class HTTPConnectionPool(ConnectionPool, RequestMethods):
             log.debug("Resetting dropped connection: %s", self.host)
             conn.close()
 
-        return conn or self._new_conn()
+        if conn:
+            return conn
+
+        try:
+            return self._new_conn()
+        except BaseException:
+            # The caller never got hold of the slot taken above: give it back.
+            if slot_popped:
+                self._put_conn(None)
+            raise
 
     def _put_conn(self, conn: BaseHTTPConnection | None) -> None:
         """
